@@ -728,7 +728,9 @@ func (w *world) run(k *Case) (line, impl string) {
 		}
 	case "challenge":
 		if ch, err := e.RealDB.GetChallenge(ctx, tgt2, ""); err == nil {
-			chF = fmt.Sprintf("%d:%d:0", tgt2N, in.id("acc:"+ch.AccountID))
+			// third member: the authorization the challenge is a challenge of (as the server announced it when
+			// the order was made), which need not be the authorization id in the URL
+			chF = fmt.Sprintf("%d:%d:%d", tgt2N, in.id("acc:"+ch.AccountID), in.id("res:"+res.AuthzID))
 		}
 		if z, err := e.RealDB.GetAuthorization(ctx, tgt); err == nil {
 			azF = fmt.Sprintf("%d:%d:0", tgtN, in.id("acc:"+z.AccountID))
